@@ -207,6 +207,10 @@ def gen_case(rng):
                         {'op': 'init', 'pos': spec['init']['pos'], 'speed': spec['init']['speed']}, op2]
         if rng.random() < 0.5:
             spec['ops'].insert(1, {'op': 'snap', 'frac': rng.uniform(0.1, 0.9)})
+    if rng.random() < 0.3:
+        # element names are free text: dots, several words, names that share a prefix up to a dot
+        for k, e in enumerate(spec['elems']):
+            e['name'] = rng.choice([f'stage {k // 2 + 1}.{k % 2 + 1}', f'shaft.{k}.out', f'gear {k} (z = {e.get("z", 0)}, v1.{k})'])
     queries = []
     for _ in range(rng.randint(4, 10)):
         if rng.random() < 0.5:
